@@ -28,6 +28,7 @@ import (
 	"database/sql"
 	"encoding/json"
 	"fmt"
+	"os"
 	"sort"
 	"strings"
 	"sync"
@@ -41,6 +42,12 @@ import (
 	"pgregory.net/rapid"
 	"verif.local/kit"
 )
+
+// c06NoAux (sensitivity experiments only): switches off the three auxiliary
+// assertions "named keys are gone after a delete", "a row / a miss read from
+// the database is stored" so that a mutant must be caught by the coherence,
+// shielding, TTL, pass-through or retry oracle itself.
+var c06NoAux = os.Getenv("VERIF_C06_NOAUX") != ""
 
 const (
 	c06MaxInjected = 5 // per node and case: keeps the redis client's circuit breaker closed (protection = 5)
@@ -381,10 +388,10 @@ func (r *hRun) doRead(what string, id int) {
 	}
 	if calls > 0 {
 		r.classes["read-miss"] = true
-		if exists && !r.cachedAlive(key) {
+		if exists && !r.cachedAlive(key) && !c06NoAux {
 			r.failf("%s: the row was read from the database but not stored under %s", what, key)
 		}
-		if !exists && !r.phAlive(key) {
+		if !exists && !r.phAlive(key) && !c06NoAux {
 			r.failf("%s: not found in the database but no placeholder stored under %s", what, key)
 		}
 	} else if exists {
@@ -461,10 +468,10 @@ func (r *hRun) doReadIndex(what string, idx int) {
 	switch {
 	case icalls > 0:
 		r.classes["readidx-miss"] = true
-		if exists && (!r.cachedAlive(ik) || !r.cachedAlive(pk)) {
+		if exists && (!r.cachedAlive(ik) || !r.cachedAlive(pk)) && !c06NoAux {
 			r.failf("%s: index and row were read from the database but not both stored (%s, %s)", what, ik, pk)
 		}
-		if !exists && !r.phAlive(ik) {
+		if !exists && !r.phAlive(ik) && !c06NoAux {
 			r.failf("%s: not found in the database but no placeholder stored under %s", what, ik)
 		}
 	case pcalls > 0:
@@ -490,7 +497,7 @@ func (r *hRun) namedKeysGone(what string, keys []string) {
 	nodes := map[int]bool{}
 	for _, k := range keys {
 		for si, s := range r.srvs {
-			if s.M.Exists(k) {
+			if s.M.Exists(k) && !c06NoAux {
 				r.failf("%s: key %s still exists on node %d after the delete returned", what, k, si)
 			}
 		}
